@@ -176,6 +176,9 @@ theorem stripMarksL_of_clean : ∀ vs : List Payload, containsMarkedL vs = false
     simp [stripMarksL, stripMarks_of_clean v h.1, stripMarksL_of_clean vs h.2]
 end
 
+theorem withMarks_def (p : Payload) (ms : List String) :
+    p.withMarks ms = if (unionMarks p.marks1 ms).isEmpty then p else .marked (unionMarks p.marks1 ms) p.unmark1 := rfl
+
 theorem stripMarks_unmark1 (p : Payload) : stripMarks p.unmark1 = stripMarks p := by
   cases p <;> simp [unmark1, stripMarks]
 
@@ -257,6 +260,52 @@ namespace Value
 /-- the hypothesis of the operation-method theorems: marker layers as the API
 builds them (non-empty, never nested directly) and no mark inside a set -/
 def MarksWF (v : Value) : Prop := v.v.markerWF = true ∧ v.v.setsClean = true
+
+mutual
+theorem markerWF_of_clean : ∀ p : Payload, p.containsMarked = false → p.markerWF = true
+  | .marked _ _, h => by simp [Payload.containsMarked] at h
+  | .seq vs, h => by simpa [Payload.markerWF] using markerWFL_of_clean vs (by simpa [Payload.containsMarked] using h)
+  | .smap _ vs, h => by simpa [Payload.markerWF] using markerWFL_of_clean vs (by simpa [Payload.containsMarked] using h)
+  | .sset _ vs, h => by simpa [Payload.markerWF] using markerWFL_of_clean vs (by simpa [Payload.containsMarked] using h)
+  | .null, _ | .unk _, _ | .b _, _ | .n _, _ | .s _, _ | .caps, _ | .bad _, _ => by simp [Payload.markerWF]
+theorem markerWFL_of_clean : ∀ vs : List Payload, Payload.containsMarkedL vs = false → Payload.markerWFL vs = true
+  | [], _ => rfl
+  | v :: vs, h => by
+    simp only [Payload.containsMarkedL, Bool.or_eq_false_iff] at h
+    simp [Payload.markerWFL, markerWF_of_clean v h.1, markerWFL_of_clean vs h.2]
+end
+
+mutual
+theorem setsClean_of_clean : ∀ p : Payload, p.containsMarked = false → p.setsClean = true
+  | .marked _ _, h => by simp [Payload.containsMarked] at h
+  | .seq vs, h => by simpa [Payload.setsClean] using setsCleanL_of_clean vs (by simpa [Payload.containsMarked] using h)
+  | .smap _ vs, h => by simpa [Payload.setsClean] using setsCleanL_of_clean vs (by simpa [Payload.containsMarked] using h)
+  | .sset _ vs, h => by simpa [Payload.setsClean, Payload.containsMarked] using h
+  | .null, _ | .unk _, _ | .b _, _ | .n _, _ | .s _, _ | .caps, _ | .bad _, _ => by simp [Payload.setsClean]
+theorem setsCleanL_of_clean : ∀ vs : List Payload, Payload.containsMarkedL vs = false → Payload.setsCleanL vs = true
+  | [], _ => rfl
+  | v :: vs, h => by
+    simp only [Payload.containsMarkedL, Bool.or_eq_false_iff] at h
+    simp [Payload.setsCleanL, setsClean_of_clean v h.1, setsCleanL_of_clean vs h.2]
+end
+
+theorem markerWF_unmarkDeep (v : Value) : v.unmarkDeep.v.markerWF = true :=
+  markerWF_of_clean _ (Payload.containsMarked_stripMarks _)
+
+theorem markerWF_withMarks {v : Value} (h : v.v.markerWF = true) (ms : List String) : (v.withMarks ms).v.markerWF = true := by
+  show (Payload.withMarks v.v ms).markerWF = true
+  rw [Payload.withMarks_def]
+  split
+  · exact h
+  · rename_i hne
+    simp only [Payload.markerWF, Bool.and_eq_true, Bool.not_eq_true']
+    exact ⟨⟨by simpa using hne, Payload.isMarked_unmark1_of_wf h⟩, Payload.markerWF_unmark1 h⟩
+
+theorem withMarks_nil_of_unmarked {v : Value} (h : v.isMarked = false) : v.withMarks [] = v := by
+  obtain ⟨t, p⟩ := v
+  show (⟨t, Payload.withMarks p []⟩ : Value) = _
+  rw [Payload.withMarks_def, Payload.marks1_eq_nil_of_not_marked h]
+  simp [unionMarks]
 
 theorem unmarkDeep_withMarks (v : Value) (ms : List String) : (v.withMarks ms).unmarkDeep = v.unmarkDeep := by
   simp [unmarkDeep, withMarks, Payload.stripMarks_withMarks]
